@@ -34,22 +34,34 @@ theorem ptrsM_sort_ok {ps : List Ptr} (h : (ptrsM ps).Ok n ro) : (ptrsM (sortPtr
   exact h _ (List.mem_map_of_mem this)
 
 mutual
-/-- Rank validity of a shape (vacuous without a rank): the acquisition order of every sorting
-collection (address-sorted units) and of every owned collection (listing order of its units)
-is strictly rank-increasing. -/
+/-- Rank validity of what `get_ptrs` returns (vacuous without a rank): every owned unit's
+interior (listing order of its units) is strictly rank-increasing. -/
+def PtrsOK (ro : RankOpt) (W : World) : Shape → Prop
+  | .mutex _ => True
+  | .rwlock _ => True
+  | .seq ss => PtrsOKL ro W ss
+  | .poisonable _ s => PtrsOK ro W s
+  | .boxed s => PtrsOK ro W s
+  | .refc s => PtrsOK ro W s
+  | .retry s => PtrsOK ro W s
+  | .owned _ s => PtrsOK ro W s ∧ ∀ m, Members.Chain ro (ptrsM (getPtrs W s)) m
+def PtrsOKL (ro : RankOpt) (W : World) : List Shape → Prop
+  | [] => True
+  | s :: ss => PtrsOK ro W s ∧ PtrsOKL ro W ss
+end
+
+/-- Rank validity of a shape that is locked through its own `RawLock` impl: in addition the
+acquisition order of a sorting collection (its address-sorted units) is strictly
+rank-increasing. Nothing is required of a retrying collection's listing. -/
 def ShapeOK (ro : RankOpt) (W : World) : Shape → Prop
   | .mutex _ => True
   | .rwlock _ => True
-  | .seq ss => ShapeOKL ro W ss
+  | .seq _ => True
   | .poisonable _ s => ShapeOK ro W s
-  | .boxed s => ShapeOK ro W s ∧ ∀ m, Members.Chain ro (ptrsM (sortPtrs (getPtrs W s))) m
-  | .refc s => ShapeOK ro W s ∧ ∀ m, Members.Chain ro (ptrsM (sortPtrs (getPtrs W s))) m
-  | .retry s => ShapeOK ro W s
-  | .owned _ s => ShapeOK ro W s ∧ ∀ m, Members.Chain ro (ptrsM (getPtrs W s)) m
-def ShapeOKL (ro : RankOpt) (W : World) : List Shape → Prop
-  | [] => True
-  | s :: ss => ShapeOK ro W s ∧ ShapeOKL ro W ss
-end
+  | .boxed s => PtrsOK ro W s ∧ ∀ m, Members.Chain ro (ptrsM (sortPtrs (getPtrs W s))) m
+  | .refc s => PtrsOK ro W s ∧ ∀ m, Members.Chain ro (ptrsM (sortPtrs (getPtrs W s))) m
+  | .retry s => PtrsOK ro W s
+  | .owned _ s => PtrsOK ro W s ∧ ∀ m, Members.Chain ro (ptrsM (getPtrs W s)) m
 
 theorem chain_none (ms : Members) (m : Mode) : Members.Chain none ms m := by
   unfold Members.Chain
@@ -58,23 +70,33 @@ theorem chain_none (ms : Members) (m : Mode) : Members.Chain none ms m := by
   | cons p ms ih => exact List.pairwise_cons.2 ⟨fun _ _ => trivial, ih⟩
 
 mutual
+theorem ptrsOK_none (W : World) : ∀ S : Shape, PtrsOK none W S
+  | .mutex _ => trivial
+  | .rwlock _ => trivial
+  | .seq ss => by simpa [PtrsOK] using ptrsOKL_none W ss
+  | .poisonable _ s => by simpa [PtrsOK] using ptrsOK_none W s
+  | .boxed s => by simpa [PtrsOK] using ptrsOK_none W s
+  | .refc s => by simpa [PtrsOK] using ptrsOK_none W s
+  | .retry s => by simpa [PtrsOK] using ptrsOK_none W s
+  | .owned _ s => ⟨ptrsOK_none W s, fun m => chain_none _ m⟩
+theorem ptrsOKL_none (W : World) : ∀ ss : List Shape, PtrsOKL none W ss
+  | [] => trivial
+  | s :: ss => ⟨ptrsOK_none W s, ptrsOKL_none W ss⟩
+end
+
 theorem shapeOK_none (W : World) : ∀ S : Shape, ShapeOK none W S
   | .mutex _ => trivial
   | .rwlock _ => trivial
-  | .seq ss => by simpa [ShapeOK] using shapeOKL_none W ss
+  | .seq _ => trivial
   | .poisonable _ s => by simpa [ShapeOK] using shapeOK_none W s
-  | .boxed s => ⟨shapeOK_none W s, fun m => chain_none _ m⟩
-  | .refc s => ⟨shapeOK_none W s, fun m => chain_none _ m⟩
-  | .retry s => by simpa [ShapeOK] using shapeOK_none W s
-  | .owned _ s => ⟨shapeOK_none W s, fun m => chain_none _ m⟩
-theorem shapeOKL_none (W : World) : ∀ ss : List Shape, ShapeOKL none W ss
-  | [] => trivial
-  | s :: ss => ⟨shapeOK_none W s, shapeOKL_none W ss⟩
-end
+  | .boxed s => ⟨ptrsOK_none W s, fun m => chain_none _ m⟩
+  | .refc s => ⟨ptrsOK_none W s, fun m => chain_none _ m⟩
+  | .retry s => ptrsOK_none W s
+  | .owned _ s => ⟨ptrsOK_none W s, fun m => chain_none _ m⟩
 
 mutual
 /-- Everything `get_ptrs` hands to an enclosing collection behaves like a lock. -/
-theorem getPtrs_ok (W : World) : ∀ S : Shape, ShapeOK ro W S → (ptrsM (getPtrs W S)).Ok n ro
+theorem getPtrs_ok (W : World) : ∀ S : Shape, PtrsOK ro W S → (ptrsM (getPtrs W S)).Ok n ro
   | .mutex x, _ => by
     intro q hq
     simp only [getPtrs, ptrsM_cons, ptrsM_nil, List.mem_singleton] at hq
@@ -85,11 +107,11 @@ theorem getPtrs_ok (W : World) : ∀ S : Shape, ShapeOK ro W S → (ptrsM (getPt
     simp only [getPtrs, ptrsM_cons, ptrsM_nil, List.mem_singleton] at hq
     subst hq
     exact isLock_rwLeaf x
-  | .seq ss, h => by simpa [getPtrs] using getPtrsL_ok W ss (by simpa [ShapeOK] using h)
-  | .poisonable _ s, h => by simpa [getPtrs] using getPtrs_ok W s (by simpa [ShapeOK] using h)
-  | .boxed s, h => by simpa [getPtrs] using ptrsM_sort_ok (getPtrs_ok W s h.1)
-  | .refc s, h => by simpa [getPtrs] using ptrsM_sort_ok (getPtrs_ok W s h.1)
-  | .retry s, h => by simpa [getPtrs] using getPtrs_ok W s (by simpa [ShapeOK] using h)
+  | .seq ss, h => by simpa [getPtrs] using getPtrsL_ok W ss (by simpa [PtrsOK] using h)
+  | .poisonable _ s, h => by simpa [getPtrs] using getPtrs_ok W s (by simpa [PtrsOK] using h)
+  | .boxed s, h => by simpa [getPtrs] using ptrsM_sort_ok (getPtrs_ok W s (by simpa [PtrsOK] using h))
+  | .refc s, h => by simpa [getPtrs] using ptrsM_sort_ok (getPtrs_ok W s (by simpa [PtrsOK] using h))
+  | .retry s, h => by simpa [getPtrs] using getPtrs_ok W s (by simpa [PtrsOK] using h)
   | .owned a s, h => by
     intro q hq
     simp only [getPtrs, ptrsM_cons, ptrsM_nil, List.mem_singleton] at hq
@@ -97,7 +119,7 @@ theorem getPtrs_ok (W : World) : ∀ S : Shape, ShapeOK ro W S → (ptrsM (getPt
     have := isLock_ordered (n := n) (ro := ro) (ptrsM (getPtrs W s)) (getPtrs_ok W s h.1) h.2
     rw [ptrsM_locks, ptrsM_fp] at this
     exact this
-theorem getPtrsL_ok (W : World) : ∀ ss : List Shape, ShapeOKL ro W ss → (ptrsM (getPtrsL W ss)).Ok n ro
+theorem getPtrsL_ok (W : World) : ∀ ss : List Shape, PtrsOKL ro W ss → (ptrsM (getPtrsL W ss)).Ok n ro
   | [], _ => by intro q hq; simp [getPtrsL] at hq
   | s :: ss, h => by
     simp only [getPtrsL, ptrsM_append]
@@ -139,7 +161,7 @@ theorem toRaw_isLock (W : World) : ∀ S : Shape, lockable S = true → ShapeOK 
     rw [ptrsM_locks] at this
     simpa [toRaw, toRaw?, shapeFp] using this
   | .retry s, _, hk => by
-    have := isLock_retry (n := n) (ro := ro) W.fuel _ (getPtrs_ok W s (by simpa [ShapeOK] using hk))
+    have := isLock_retry (n := n) (ro := ro) W.fuel _ (getPtrs_ok W s hk)
     rw [ptrsM_locks] at this
     simpa [toRaw, toRaw?, shapeFp] using this
   | .owned _ s, _, hk => by
